@@ -405,6 +405,8 @@ struct H {
     field: String,
     rec: Value,
     slot: usize,
+    /// the span was created before the JSON layer was swapped in through a reload handle
+    pre: bool,
 }
 static HIST: Mutex<Vec<H>> = Mutex::new(Vec::new());
 static TURN: AtomicUsize = AtomicUsize::new(0);
@@ -562,7 +564,7 @@ impl Engine for JsonEngine {
         "JSON formatter x {flatten_event, current_span, span_list, target/level/thread/file/line options}; hostile strings (quotes, backslashes, control characters, U+2028/9, astral and non-characters, a literal \\u0041) in messages, field names, string values, targets and span names; numeric extremes (u64/i64/u128/i128 bounds, 2^53+1, NaN, +-inf, -0.0, subnormal), bools, errors, Debug/Display values; spans whose fields are recorded later in 0..n steps from up to three threads - also overlapping each other on one span - while another thread emits events inside the span (under seeded schedules each field is judged as an atomic register: an event must show a value of a record call not certainly superseded before the event began, and the creation-time state only if no record call had certainly completed); faults: a panicking Debug in an event field or in a span field (caught); non-trivial = at least one record carried a hostile string and at least one span had a field recorded after creation and was listed in a later event; distinct = distinct (plan, schedule digest)".into()
     }
     fn components(&self) -> Value {
-        json!({"real": ["fmt::format::Json (format_event, SerializableSpan, SerializableContext)", "JsonFields::add_fields (merge and re-serialise)", "tracing-serde visitors", "serde_json serializer", "Registry + span extensions"], "stub": ["sink (recording writer)", "independent RFC 8259 parser as oracle"]})
+        json!({"real": ["fmt::format::Json (format_event, SerializableSpan, SerializableContext)", "JsonFields::add_fields (merge and re-serialise)", "tracing-serde visitors", "serde_json serializer", "Registry + span extensions", "reload::Subscriber (a fifth of the runs swap the layer in after spans exist)"], "stub": ["sink (recording writer)", "independent RFC 8259 parser as oracle"]})
     }
     fn generate(&self, g: &GenCtx) -> Value {
         let mut rng = Rng::new(g.seed);
@@ -616,8 +618,24 @@ impl Engine for JsonEngine {
             });
         }
         let sched = if sync { Sched::swarm(&mut rng, 400) } else { Sched::op_order(rng.next_u64()) };
+        // a fifth of the runs swap the JSON layer in through a `reload` handle after some spans exist already (the hot
+        // slot among them): those spans carry nothing the layer's `on_new_span` would have stored, so the first `record`
+        // on them - possibly two at once - and every event inside them take the layer's "nothing formatted yet" paths
+        let mut pre = vec![];
+        if rng.chance(1, 5) {
+            let mut slots = vec![hot];
+            for _ in 0..rng.below(3) {
+                let s2 = rng.below(NSLOTS as u64);
+                if !slots.contains(&s2) {
+                    slots.push(s2);
+                }
+            }
+            for s2 in slots {
+                pre.push(json!({"op": "span", "slot": s2, "kind": *rng.pick(&[0u64, 1, 2, 4]), "vals": gen_vals(&mut rng)}));
+            }
+        }
         let sink = if rng.chance(1, 5) { json!({"k": "sink", "id": 0, "short": *rng.pick(&[1u64, 7, 16, 64])}) } else { json!({"k": "sink", "id": 0}) };
-        json!({"engine": "json", "prop": g.prop, "mode": g.mode, "cfg": {"opts": opts, "threads": nthreads, "sink": sink}, "steps": steps, "sched": serde_json::to_value(&sched).unwrap()})
+        json!({"engine": "json", "prop": g.prop, "mode": g.mode, "cfg": {"opts": opts, "threads": nthreads, "sink": sink}, "pre": pre, "steps": steps, "sched": serde_json::to_value(&sched).unwrap()})
     }
 
     fn classify_known(&self, plan: &Value, res: &RunResult) -> Option<String> {
@@ -637,11 +655,37 @@ impl Engine for JsonEngine {
         *SLOTS.lock().unwrap() = (0..NSLOTS).map(|_| None).collect();
         let sync = sched.sync;
         let cfg2 = cfg.clone();
+        let pre: Vec<Value> = plan["pre"].as_array().cloned().unwrap_or_default();
         let body = move || {
             // a fifth of the runs write to a sink that takes only a few bytes per call (the layer must offer the rest again)
             let w = build_writer(&cfg2["sink"]);
             let layer = build_fmt_layer(&cfg2["opts"], w);
-            let d = Dispatch::new(Registry::default().with(layer));
+            let d = if pre.is_empty() {
+                Dispatch::new(Registry::default().with(layer))
+            } else {
+                type Boxed = Box<dyn tracing_subscriber::Subscribe<Registry> + Send + Sync>;
+                let initial: Boxed = Box::new(tracing_subscriber::subscribe::Identity::new());
+                let (rl, handle) = tracing_subscriber::reload::Subscriber::new(initial);
+                let d = Dispatch::new(Registry::default().with(rl));
+                {
+                    let _g = dispatch::set_default(&d);
+                    for (i, s) in pre.iter().enumerate() {
+                        let kind = s["kind"].as_u64().unwrap_or(0) as usize;
+                        let slot = s["slot"].as_u64().unwrap_or(0) as usize % NSLOTS;
+                        let uid = (100_000 + i as u64) * 10;
+                        let mut h = H { gi: 100_000 + i, t: 0, op: "span".into(), kind, uid, vals: s["vals"].clone(), applied: true, slot, pre: true, ..Default::default() };
+                        h.inv = detsim::stamp();
+                        let sp = jsites::span(kind, &vals_of(&s["vals"]), uid);
+                        SLOTS.lock().unwrap()[slot] = Some((Arc::new(sp), uid));
+                        h.ret = detsim::stamp();
+                        HIST.lock().unwrap().push(h);
+                    }
+                }
+                if handle.reload(layer).is_err() {
+                    violation("reload-failed", "swapping the JSON layer in through the reload handle failed");
+                }
+                d
+            };
             let indexed: Vec<(usize, usize, Value)> = steps.iter().enumerate().map(|(gi, s)| (gi, (s["t"].as_u64().unwrap_or(0) as usize) % nthreads, s.clone())).collect();
             TURN.store(0, Ordering::SeqCst);
             let mut tids = vec![];
@@ -739,11 +783,20 @@ fn oracle(cfg: &Value, sync: bool, hist: &[H]) {
                 let target = if h.kind == 1 { jsites::HOSTILE_TARGET.to_string() } else { "plain".to_string() };
                 let mut fields: BTreeMap<String, Vec<Exp>> = f.into_iter().map(|(k, e)| (k, vec![e])).collect();
                 fields.insert("uid".into(), vec![Exp::U(h.uid as u128)]);
+                if h.pre {
+                    // the JSON layer never saw this span's creation: all it can show is the name and what is
+                    // recorded from now on
+                    fields.clear();
+                }
                 spans.insert(h.uid, MS { parent: h.scope.last().copied().unwrap_or(0), name, target, fields, broken: h.panicked });
                 if h.panicked && h.kind != 3 {
                     violation("panic", format!("creating span kind {} panicked although no field panics", h.kind));
                     return;
                 }
+            }
+            "record" if h.panicked && !h.rec.is_object() => {
+                violation("panic", format!("record op {} on span uid {} panicked although the recorded value does not", h.gi, h.uid));
+                return;
             }
             "record" if h.applied => {
                 if let Some(ms) = spans.get_mut(&h.uid) {
